@@ -27,6 +27,8 @@ def check(ctx):
         A = Analysis(ctx)
         fq = f"{mod}:{cls}.train_step"
         r = A.run(fq, cls_ctx=f"{mod}:{cls}")
+        if lib == "torch":
+            _torch_snapshots(ctx, A, r, cls)
         upd = _find_update(ctx, A, r, lib)
         if upd is None:
             continue
@@ -125,6 +127,33 @@ def _pass_y_table(ctx):
     ctx.ob("R16.6", fq, st[0].node if st else None, not bad and bool(st), "pass_y_ is False for demographic_parity, True for "
            "equalized_odds, and any other constraints value is refused" if not bad and st else "; ".join(bad[:2]) or "pass_y_ is never set",
            construct="pass_y_ table")
+
+
+INPLACE_TENSOR = ("mul_", "add_", "sub_", "div_", "copy_", "zero_", "fill_", "addcmul_", "addcdiv_", "neg_", "clamp_")
+
+
+def _torch_snapshots(ctx, A, r, cls):
+    """The gradients of the two backward passes are *copied* out of .grad (zero_grad / the next backward reuse the buffers),
+    and the parameters' .grad buffers are not edited in place while a snapshot may still alias them."""
+    fq = r.func
+    params = A.entry(r, "self.predictor_model.parameters()")
+    snaps = [e for e in r.events if e.kind == "store" and e.data.get("tkind") == "name" and e.func == fq and not e.loops
+             and e.data["value"].op == "comp" and len(e.data["value"].args[2]) == 1 and e.data["value"].args[2][0][0] is params]
+
+    def cloned(body):
+        return contains(body, lambda s_: s_.op == "call" and ((s_.args[0].op == "global" and s_.args[0].args[0] in ("torch.clone", "copy.deepcopy"))
+                                                              or (s_.args[0].op == "attr" and s_.args[0].args[1] == "clone")))
+    bad = [e for e in snaps if contains(e.data["value"].args[1], lambda s_: s_.op in ("attr", "vattr") and s_.args[1] == "grad") and not cloned(e.data["value"].args[1])]
+    ok = len(snaps) >= 2 and not bad
+    ctx.ob("R16.5", fq, bad[0].node if bad else (snaps[0].node if snaps else None), ok,
+           f"both gradient snapshots ({len(snaps)}) are clones of the .grad buffers" if ok else
+           "a gradient snapshot keeps the .grad buffers themselves (no clone): zero_grad / the next backward / an in-place update "
+           "change the snapshot, so the update is no longer dW_LP - proj*unit - alpha*dW_LA", construct=f"{cls}: gradient snapshots are copies")
+    inpl = [e for e in r.events if e.kind == "call" and e.func == fq and e.data["fterm"].op == "attr" and e.data["fterm"].args[1] in INPLACE_TENSOR
+            and contains(e.data["fterm"].args[0], lambda s_: s_.op in ("attr", "vattr") and s_.args[1] == "grad")]
+    ctx.ob("R16.5", fq, inpl[0].node if inpl else None, not inpl, "no in-place tensor operation edits a .grad buffer in train_step"
+           if not inpl else f".grad is edited in place ({inpl[0].data['fterm'].args[1]}): the documented update is assigned as a "
+           "whole, and in-place edits interact with any alias of the buffer", construct=f"{cls}: no in-place .grad edits")
 
 
 def _tiny(A, r, update):
